@@ -229,6 +229,127 @@ func c28(c *Ctx) {
 			}
 		}
 	})
+	c.Ob("reader-arms", "R2", "the context readers and the MD mutators take each arm only under its stated condition: the attached metadata is consulted only when the context carries it; the walks over a metadata map or a pair list are never left early and their index loops are strictly bounded by the length; the no-op arm of Set/Append is taken only for an empty value list; a case-insensitive hit is taken only when EqualFold says so; ValueFromOutgoingContext appends a pair's value only when its key matches, seeds the result with the base values exactly when it is still empty, and returns the bare base values only when no pair matched; odd pair lists panic only when odd", 20, func() {
+		readers := []string{"FromIncomingContext", "ValueFromIncomingContext", "FromOutgoingContext", "ValueFromOutgoingContext", "fromOutgoingContextRaw"}
+		for _, name := range readers {
+			f := c.fn(mdp, name)
+			// (1) metadata used only when present
+			var ta *ssa.TypeAssert
+			for _, in := range instrsWhere(f, func(in ssa.Instruction) bool { t, ok := in.(*ssa.TypeAssert); return ok && t.CommaOk }) {
+				ta = in.(*ssa.TypeAssert)
+			}
+			if !c.Expect(ta != nil, nil, f, name+":context-lookup", "no checked lookup of the metadata in the context") {
+				continue
+			}
+			present := Truth(ExtractOf(func(v ssa.Value) bool { return v == ssa.Value(ta) }, 1), true)
+			val := func(v ssa.Value) bool { return DataDep(ExtractOf(func(x ssa.Value) bool { return x == ssa.Value(ta) }, 0))(v) }
+			for _, in := range instrsWhere(f, func(in ssa.Instruction) bool {
+				switch x := in.(type) {
+				case *ssa.Lookup:
+					return val(x.X)
+				case *ssa.Range:
+					return val(x.X)
+				}
+				return false
+			}) {
+				c.MustFact(in, name+":metadata-consulted-only-when-attached", present)
+			}
+			for _, r := range returnsOf(f) {
+				if r.Block() == f.Recover || len(r.Results) < 2 {
+					continue
+				}
+				if ConstBool(false)(r.Results[len(r.Results)-1]) {
+					c.MustFact(r, name+":absent-reported-only-when-absent", Truth(ExtractOf(func(v ssa.Value) bool { return v == ssa.Value(ta) }, 1), false))
+				}
+			}
+			// (2) walks complete, index loops strict
+			c.NoEarlyExitExcept(f, AnyV, name+":walk-not-left-early", func(p *ssa.BasicBlock) bool {
+				// leaving the case-insensitive scan at the hit is the point of the scan
+				_, ok := hasFact(FactsAtBlock(p), Truth(CallRes(CalleeX("strings", "EqualFold"), 0), true))
+				return ok
+			})
+		}
+		for _, name := range []string{"Pairs", "AppendToOutgoingContext", "FromOutgoingContext", "ValueFromOutgoingContext", "MD.Append", "MD.Set"} {
+			f := c.fn(mdp, name)
+			for _, b := range f.Blocks {
+				i, ok := b.Instrs[len(b.Instrs)-1].(*ssa.If)
+				if !ok || !isLoopHeader(b) {
+					continue
+				}
+				bo, ok := i.Cond.(*ssa.BinOp)
+				if !ok {
+					continue
+				}
+				if _, isPhi := bo.X.(*ssa.Phi); isPhi && builtinCall(bo.Y, "len") != nil && !isRangeIndex(bo.X) {
+					c.inst(name + ":index-loop " + c.siteStr(i))
+					c.Expect(bo.Op == token.LSS, i, f, name+":index-loop-strictly-below-length", "an index loop over pairs runs up to and including the length (the pair at the end does not exist)")
+				}
+			}
+		}
+		for _, name := range []string{"MD.Set", "MD.Append"} {
+			f := c.fn(mdp, name)
+			for _, in := range instrsWhere(f, func(in ssa.Instruction) bool { _, ok := in.(*ssa.MapUpdate); return ok }) {
+				c.MustFact(in, name+":stores-only-a-non-empty-value-list", CmpInt(LenOf(ParamV("vals")), token.NEQ, 0))
+			}
+			for _, r := range returnsOf(f) {
+				if r.Block() == f.Recover {
+					continue
+				}
+				if len(instrsWhereDominating(f, r)) == 0 {
+					c.MustFact(r, name+":no-op-only-for-an-empty-value-list", CmpInt(LenOf(ParamV("vals")), token.EQL, 0))
+				}
+			}
+		}
+		// case-insensitive hit only when EqualFold says so
+		fold := Truth(CallRes(CalleeX("strings", "EqualFold"), 0), true)
+		vi := c.fn(mdp, "ValueFromIncomingContext")
+		for _, r := range returnsOf(vi) {
+			if r.Block() == vi.Recover || ConstNil(r.Results[0]) {
+				continue
+			}
+			c.MustFactAny(r, "ValueFromIncomingContext:value-only-on-a-hit", fold, Truth(func(v ssa.Value) bool {
+				e, ok := v.(*ssa.Extract)
+				if !ok || e.Index != 1 {
+					return false
+				}
+				_, isL := e.Tuple.(*ssa.Lookup)
+				return isL
+			}, true))
+		}
+		vo := c.fn(mdp, "ValueFromOutgoingContext")
+		// the panic on an odd pair list
+		for _, name := range []string{"FromOutgoingContext", "ValueFromOutgoingContext"} {
+			f := c.fn(mdp, name)
+			for _, in := range instrsWhere(f, func(in ssa.Instruction) bool { _, ok := in.(*ssa.Panic); return ok }) {
+				c.MustFact(in, name+":panics-only-for-an-odd-pair-list", CmpInt(func(v ssa.Value) bool { b, ok := v.(*ssa.BinOp); return ok && b.Op == token.REM && ConstInt(2)(b.Y) }, token.EQL, 1))
+			}
+		}
+		// accumulation in ValueFromOutgoingContext
+		nApp := 0
+		for _, in := range instrsWhere(vo, func(in ssa.Instruction) bool {
+			call, ok := in.(*ssa.Call)
+			return ok && BuiltinCall("append")(&call.Call)
+		}) {
+			app := in.(*ssa.Call)
+			if isVariadicSpread(app) {
+				// vals = append(vals, matchedMD...): the base values go first, exactly when the result is still empty
+				nApp++
+				c.MustFact(app, "ValueFromOutgoingContext:base-values-seeded-only-into-an-empty-result", IsNil(AnyV))
+				continue
+			}
+			nApp++
+			c.UnderArm(app, "ValueFromOutgoingContext:pair-value-appended-only-on-a-key-match", fold, Cmp(AnyV, token.EQL, ParamV("key")), Cmp(AnyV, token.EQL, CallRes(CalleeX("strings", "ToLower"), 0)))
+		}
+		c.Expect(nApp >= 2, nil, vo, "ValueFromOutgoingContext:accumulation-sites", "expected the base-value seeding and the pair-value append")
+		for _, r := range returnsOf(vo) {
+			if r.Block() == vo.Recover {
+				continue
+			}
+			if CallRes(Callee(mdp, "copyOf"), 0)(r.Results[0]) {
+				c.MustFact(r, "ValueFromOutgoingContext:bare-base-values-only-when-no-pair-matched", IsNil(func(v ssa.Value) bool { _, ok := v.(*ssa.Phi); return ok }))
+			}
+		}
+	})
 	c.Ob("order-and-arity", "R2", "FromOutgoingContext copies the base metadata before it appends the appended pairs (in slice order); Join iterates its arguments in order; Pairs and AppendToOutgoingContext panic exactly on an odd argument count", 4, func() {
 		fo := c.fn(mdp, "FromOutgoingContext")
 		fMd := c.field(mdp, "rawMD", "md")
@@ -267,4 +388,28 @@ func c28(c *Ctx) {
 			}
 		}
 	})
+}
+
+// isVariadicSpread: append(x, y...) with y a slice value (not a fresh varargs array).
+func isVariadicSpread(app *ssa.Call) bool {
+	if len(app.Call.Args) != 2 {
+		return false
+	}
+	if sl, ok := app.Call.Args[1].(*ssa.Slice); ok {
+		if al, ok := sl.X.(*ssa.Alloc); ok && al.Comment == "varargs" {
+			return false
+		}
+	}
+	return true
+}
+
+// instrsWhereDominating: the map updates of fn that dominate r.
+func instrsWhereDominating(fn *ssa.Function, r *ssa.Return) []ssa.Instruction {
+	var out []ssa.Instruction
+	for _, in := range instrsWhere(fn, func(in ssa.Instruction) bool { _, ok := in.(*ssa.MapUpdate); return ok }) {
+		if instrDominates(in, r) {
+			out = append(out, in)
+		}
+	}
+	return out
 }
